@@ -800,11 +800,15 @@ func runRC(s rcScn) rcResult {
 type workItem struct {
 	Hist *histScn `json:"hist,omitempty"`
 	RC   *rcScn   `json:"rc,omitempty"`
+	Life *lifeScn `json:"life,omitempty"`
+	NP   *npScn   `json:"np,omitempty"`
 }
 
 type workOut struct {
 	Hist *histResult `json:"hist,omitempty"`
 	RC   *rcResult   `json:"rc,omitempty"`
+	Life *lifeResult `json:"life,omitempty"`
+	NP   *npResult   `json:"np,omitempty"`
 }
 
 // histWorker: run the items of the file from index `from` on; "I idx" before, "S idx json" after each.
@@ -845,6 +849,28 @@ func histWorker(file string, from int64) {
 			r := runRC(*it.RC)
 			wo.RC = &r
 			if n := len(r.RC.Ops); n > 0 && r.RC.Ops[n-1].Status == 3 {
+				hung++
+			}
+		case it.Life != nil:
+			if hung >= 2 {
+				wo.Life = &lifeResult{Life: it.Life, Skipped: true}
+
+				break
+			}
+			r := runLife(*it.Life)
+			wo.Life = &r
+			if n := len(r.Life.Ops); n > 0 && r.Life.Ops[n-1].Status == 3 {
+				hung++
+			}
+		case it.NP != nil:
+			if hung >= 3 {
+				wo.NP = &npResult{NP: it.NP, Skipped: true}
+
+				break
+			}
+			r := runNP(*it.NP)
+			wo.NP = &r
+			if n := len(r.NP.Ops); n > 0 && r.NP.Ops[n-1].Status == 3 {
 				hung++
 			}
 		}
@@ -913,6 +939,17 @@ func runItems(self, dir, tag string, items []workItem) []workOut {
 			sc := *it.RC
 			sc.Ops = []rcOp{{Kind: sc.Ops[0].Kind, S: sc.Ops[0].S, U: sc.Ops[0].U, Status: 4, Detail: detail}}
 			outs[last].RC = &rcResult{RC: &sc}
+		} else if it.Life != nil {
+			// (inputs and observations share the op list: keep the inputs, the crash is booked on the first call)
+			sc := *it.Life
+			sc.Ops = append([]lifeOp{}, sc.Ops...)
+			sc.Ops[0].Status, sc.Ops[0].Detail = 4, detail
+			outs[last].Life = &lifeResult{Life: &sc}
+		} else if it.NP != nil {
+			sc := *it.NP
+			sc.Ops = append([]npOp{}, sc.Ops...)
+			sc.Ops[0].Status, sc.Ops[0].Res, sc.Ops[0].Detail = 4, -3, detail
+			outs[last].NP = &npResult{NP: &sc}
 		}
 		from = last + 1
 	}
